@@ -397,6 +397,16 @@ func (c *Ctx) apiVersionFixup() {
 						if v, isID := rs.Value.(*ast.Ident); isID && rootIdent(l.X) != nil && info.ObjectOf(rootIdent(l.X)) == info.ObjectOf(v) {
 							set = true
 						}
+						// or in place: <list>.Items[i].APIVersion = gv with i the loop's index
+						if k, isID := rs.Key.(*ast.Ident); isID && k.Name != "_" {
+							base := ast.Unparen(l.X)
+							if tm, isTM := base.(*ast.SelectorExpr); isTM && tm.Sel.Name == "TypeMeta" {
+								base = ast.Unparen(tm.X)
+							}
+							if ix, isIx := base.(*ast.IndexExpr); isIx && fn.Term(ix.X).Key() == fn.Term(rs.X).Key() && fn.Term(ix.Index).Key() == fn.Term(k).Key() {
+								set, stored = true, true
+							}
+						}
 						if k, isID := rs.Key.(*ast.Ident); isID {
 							if ix, isIx := ast.Unparen(l.X).(*ast.SelectorExpr); isIx {
 								_ = ix
